@@ -363,6 +363,9 @@ func boundTarget(f *ssa.Function) *ssa.Function {
 		return nil
 	}
 	m := f.Prog.FuncValue(obj)
+	if m == nil {
+		m = f.Prog.FuncValue(obj.Origin())
+	}
 	if m == nil || m.Blocks == nil {
 		return nil
 	}
@@ -705,6 +708,10 @@ func dependsOn(v ssa.Value, pred func(ssa.Value) bool, depth int) bool {
 		}
 		seen[v] = true
 		if pred(v) {
+			return true
+		}
+		// a single-assignment local, a captured variable, a field of a local struct value
+		if n := norm1(v); n != nil && rec(n, d+1) {
 			return true
 		}
 		switch x := v.(type) {
